@@ -36,6 +36,7 @@
 #include <unifex/type_list.hpp>
 #include <unifex/type_traits.hpp>
 
+#include <algorithm>
 #include <exception>
 #include <functional>
 #include <memory>
@@ -209,6 +210,7 @@ struct _receiver<Predecessor, Receiver, Func, FuncPolicy>::type {
            sched = std::forward<Scheduler>(sched),
            begin_it,
            chunk_size,
+           distance,
            end_it,
            num_chunks](Values&... values) mutable {
             return unifex::let_value_with(
@@ -229,14 +231,21 @@ struct _receiver<Predecessor, Receiver, Func, FuncPolicy>::type {
                                 unifex::bulk_schedule(
                                     std::move(sched), num_chunks),
                                 [&](diff_t index) {
+                                  // chunk_size is rounded up, so the last few
+                                  // chunks may start at or beyond the end of
+                                  // the range: clamp both ends to the range
+                                  const diff_t chunk_begin_off =
+                                      std::min<diff_t>(
+                                          chunk_size * index, distance);
+                                  const diff_t chunk_end_off =
+                                      index < (num_chunks - 1)
+                                      ? std::min<diff_t>(
+                                            chunk_begin_off + chunk_size,
+                                            distance)
+                                      : distance;
                                   auto chunk_begin_it =
-                                      begin_it + (chunk_size * index);
-                                  auto chunk_end_it = chunk_begin_it;
-                                  if (index < (num_chunks - 1)) {
-                                    std::advance(chunk_end_it, chunk_size);
-                                  } else {
-                                    chunk_end_it = end_it;
-                                  }
+                                      begin_it + chunk_begin_off;
+                                  auto chunk_end_it = begin_it + chunk_end_off;
 
                                   for (auto it = chunk_begin_it;
                                        it != chunk_end_it;
